@@ -281,9 +281,6 @@ func (h *hist) dropPrefix(nextT *int, ps [][]byte, mreadTs uint64) (stop bool, e
 	}
 	h.xemit(fmt.Sprintf("(DropPrefix %s %s %s %d)", bytesList(ps), idList(l0ids), ListOf(obs), code),
 		fmt.Sprintf("DropPrefix %x -> %v (flushed %v, %d compactions)", ps, derr, l0ids, len(recs)))
-	for _, dir := range cuts {
-		h.checkCrashCopy(dir, pre, vts)
-	}
 	h.c.Oracle(derr == nil, "c29-dropprefix-error", "DropPrefix returned an error in a sequential history", J{"history": h.desc, "err": fmt.Sprint(derr)})
 	if derr != nil {
 		return true, nil
@@ -314,6 +311,27 @@ func (h *hist) dropPrefix(nextT *int, ps [][]byte, mreadTs uint64) (stop bool, e
 			}
 		}
 	}
+	// structural condition of the table-level form of F20: a table whose smallest AND biggest
+	// internal keys both carry a dropped prefix although the smallest USER key does not (the prefix
+	// matched into its version suffix): compactBuildTables' keepTable discards the whole table,
+	// with every key in between
+	f20table := false
+	for l := 0; l < len(firstDump); l++ {
+		for _, t := range firstDump[l] {
+			if len(t.Entries) == 0 {
+				continue
+			}
+			s, b := t.Entries[0], t.Entries[len(t.Entries)-1]
+			for _, p := range live {
+				if !bytes.HasPrefix(s.Key, p) && bytes.HasPrefix(internalKey(s.Key, s.Version), p) && bytes.HasPrefix(internalKey(b.Key, b.Version), p) {
+					f20table = true
+				}
+			}
+		}
+	}
+	for _, dir := range cuts {
+		h.checkCrashCopy(dir, pre, vts, f24shape, live)
+	}
 	t := *nextT
 	*nextT = t + 1
 	rts := uint64(0)
@@ -341,6 +359,8 @@ func (h *hist) dropPrefix(nextT *int, ps [][]byte, mreadTs uint64) (stop bool, e
 				} else {
 					sig = "c29-dropped-key-still-visible"
 				}
+			case f20table && got == nil && !hasAnyPrefix(k, live):
+				sig, what = sigF20, "DropPrefix discarded a whole table whose end keys matched a prefix only through the version suffix of the smallest key; keys in between that do not start with any given prefix are gone"
 			default:
 				survived = true
 			}
@@ -350,12 +370,14 @@ func (h *hist) dropPrefix(nextT *int, ps [][]byte, mreadTs uint64) (stop bool, e
 	}
 	h.discard(t)
 	h.ref = coded
-	return survived, nil
+	// after any mismatch the reference no longer describes the stored data (a table-level F20
+	// drop removes more than `coded` says): the history ends here
+	return survived || h.failed, nil
 }
 
 // checkCrashCopy re-opens a directory copied in the middle of a DropPrefix: every key must
 // show its pre-drop value or nothing
-func (h *hist) checkCrashCopy(dir string, pre []refWrite, vts uint64) {
+func (h *hist) checkCrashCopy(dir string, pre []refWrite, vts uint64, f24shape bool, live [][]byte) {
 	db2, err := openSysDB(dir, h.o)
 	if err != nil {
 		h.c.Oracle(false, "c29-crash-reopen-fails", "re-open after a crash inside DropPrefix fails", J{"err": err.Error(), "history": h.desc})
@@ -377,7 +399,13 @@ func (h *hist) checkCrashCopy(dir string, pre []refWrite, vts uint64) {
 			got = &oi
 		}
 		ok := got == nil || sameObs(got, refVisibleAt(pre, k, vts, now))
-		h.c.Oracle(ok, "c29-dropprefix-crash-exposes-other-value", "after a crash inside DropPrefix a key shows a value that is neither its pre-drop value nor absent",
+		sig := "c29-dropprefix-crash-exposes-other-value"
+		if !ok && f24shape && hasAnyPrefix(k, live) {
+			// finding F24: a table holding an older version of the key was not picked, so once the
+			// newer versions are dropped (levels are processed bottom-up) the older one shows
+			sig = sigF24
+		}
+		h.c.Oracle(ok, sig, "after a crash inside DropPrefix a key shows a value that is neither its pre-drop value nor absent",
 			J{"history": h.desc, "key": k})
 	}
 	h.c.Count("dropprefix crash cut")
@@ -519,17 +547,32 @@ func runDropHistory(c *Ctx, i int) (*hist, error) {
 	managed := i%5 == 4
 	o := sysOpts{Managed: managed, Detect: c.Rng.Intn(2) == 0, NKeep: []int{1, 2, 100}[c.Rng.Intn(3)], MaxLevels: 4,
 		VThreshold: 32, TableSize: int64(256) << uint(c.Rng.Intn(4)), BaseLevelSize: []int64{200, 600, 2 << 10, 8 << 10}[c.Rng.Intn(4)]}
+	// wide: many keys over many small tables, so that a level holds tables without any of the
+	// prefixes between tables that hold some (dropPrefixes builds one compaction per run of
+	// adjacent tables)
+	wide := i%4 == 3
+	if wide {
+		o.TableSize, o.BaseLevelSize = 256, 8<<10
+	}
 	h, err := newHist(c, o)
 	if err != nil {
 		return nil, err
 	}
 	defer h.close()
 	keys := dropKeys[:4+c.Rng.Intn(len(dropKeys)-3)]
+	if wide {
+		keys = nil
+		for a := byte('a'); a <= 'f'; a++ {
+			for d := byte('0'); d <= '7'; d++ {
+				keys = append(keys, []byte{a, d})
+			}
+		}
+	}
 	nextT := 0
 	var mts uint64 = 1
 	value := func() []byte {
 		n := c.Rng.Intn(6)
-		if c.Rng.Intn(4) == 0 {
+		if c.Rng.Intn(4) == 0 || (wide && c.Rng.Intn(2) == 0) {
 			n = 30 + c.Rng.Intn(20)
 		}
 		v := make([]byte, n)
@@ -542,7 +585,11 @@ func runDropHistory(c *Ctx, i int) (*hist, error) {
 		t := nextT
 		nextT++
 		h.begin(t, true, mts)
-		for j, n := 0, 1+c.Rng.Intn(4); j < n; j++ {
+		nw := 1 + c.Rng.Intn(4)
+		if wide {
+			nw = 6 + c.Rng.Intn(10)
+		}
+		for j, n := 0, nw; j < n; j++ {
 			k := keys[c.Rng.Intn(len(keys))]
 			switch c.Rng.Intn(8) {
 			case 0:
@@ -605,7 +652,11 @@ func runDropHistory(c *Ctx, i int) (*hist, error) {
 		}
 		return nil
 	}
-	if err := build(6 + c.Rng.Intn(20)); err != nil {
+	nb := 6 + c.Rng.Intn(20)
+	if wide {
+		nb = 24 + c.Rng.Intn(24)
+	}
+	if err := build(nb); err != nil {
 		return h, err
 	}
 	for round, rounds := 0, 1+c.Rng.Intn(3); round < rounds; round++ {
@@ -701,6 +752,46 @@ func scenarioF24(c *Ctx) (*hist, bool, error) {
 	if _, err := h.dropPrefix(&nextT, [][]byte{[]byte("ab")}, 0); err != nil {
 		return h, false, err
 	}
+	h.dump()
+	return h, c.nFail > nf, nil
+}
+
+// non-adjacent: a level >= 1 with several tables; two prefixes select the first and the last
+// table (each also holds keys that survive), the tables in between hold none of the prefixes:
+// dropPrefixes must rewrite the two runs separately, the level must stay disjoint and every
+// surviving key readable. Not tied to a finding.
+func scenarioDropNonAdjacent(c *Ctx) (*hist, bool, error) {
+	h, err := newHist(c, sysOpts{Detect: true, NKeep: 1, MaxLevels: 4, VThreshold: 1 << 10, TableSize: 256, BaseLevelSize: 8 << 10})
+	if err != nil {
+		return nil, false, err
+	}
+	defer h.close()
+	nextT := 0
+	var kv [][]byte
+	for a := byte('b'); a <= 'g'; a++ {
+		for d := byte('1'); d <= '4'; d++ {
+			kv = append(kv, []byte{a, d}, []byte(fmt.Sprintf("value-of-%c%c-%s", a, d, strings.Repeat("y", 24))))
+		}
+	}
+	h.set1(&nextT, kv...)
+	if err := h.flush(); err != nil {
+		return h, false, err
+	}
+	if ok, err := h.compact(0, false, nil); err != nil || !ok {
+		return h, false, fmt.Errorf("non-adjacent scenario: L0 compaction did not run (%v)", err)
+	}
+	nf := c.nFail
+	if _, err := h.dropPrefix(&nextT, [][]byte{[]byte("b1"), []byte("g3"), []byte("d")}, 0); err != nil {
+		return h, false, err
+	}
+	t := nextT
+	nextT++
+	h.begin(t, false, 0)
+	for i := 0; i < len(kv); i += 2 {
+		h.get(t, kv[i])
+	}
+	h.iterate(t, itOpts{}, nil)
+	h.discard(t)
 	h.dump()
 	return h, c.nFail > nf, nil
 }
@@ -1072,7 +1163,7 @@ func init() {
 		for _, s := range []struct {
 			id  string
 			run func(c *Ctx) (*hist, bool, error)
-		}{{"F20", scenarioF20}, {"F24", scenarioF24}} {
+		}{{"F20", scenarioF20}, {"F24", scenarioF24}, {"non-adjacent", scenarioDropNonAdjacent}} {
 			h, rep, err := s.run(c)
 			if err != nil {
 				return err
